@@ -59,6 +59,64 @@ def constructors(tier):
     return out
 
 
+def constructed_access(tier):
+    """a component / row / swizzle of a value that was just constructed (through a variable, so that an optimiser may look through the
+    store): which argument a component comes from depends on the split"""
+    out = []
+    for comp in ("float", "int"):
+        for n in (2, 3, 4):
+            T = vt(comp, n)
+            for parts in compositions(n, n - 1):
+                if len(parts) == n and tier == "quick" and n == 4 and comp == "int":
+                    continue
+                params = ", ".join(f"{vt(comp, p)} p{i}" for i, p in enumerate(parts))
+                args = ", ".join(f"p{i}" for i in range(len(parts)))
+                ks = range(n) if (tier != "quick" or len(parts) < n) else (0, n - 1)
+                for k in ks:
+                    out.append(_t(f"export function f({params}) -> {comp} {{ {T} t = {T}({args}); return t[{k}]; }}", f"construct {T} from {parts}, element {k}", ["construct", "select"]))
+                out.append(_t(f"export function f({params}) -> {comp} {{ {T} t = {T}({args}); return t.{'xyzw'[n - 1]} + t.x; }}", f"construct {T} from {parts}, swizzle", ["construct", "select"]))
+                out.append(_t(f"export function f({params}, int i) -> {comp} {{ {T} t = {T}({args}); return t[i]; }}", f"construct {T} from {parts}, dynamic element", ["construct", "select"],
+                              bounds={"i": (0, n - 1)}))
+    for n in (3, 4):
+        M, R = f"float{n}x{n}", f"float{n}"
+        params = ", ".join(f"{R} r{i}" for i in range(n))
+        rows = ", ".join(f"r{i}" for i in range(n))
+        for k in range(n):
+            out.append(_t(f"export function f({params}) -> {R} {{ {M} m = {M}({rows}); return m[{k}]; }}", f"construct {M}, row {k}", ["construct", "select", "matrix"]))
+            out.append(_t(f"export function f({params}) -> float {{ {M} m = {M}({rows}); return m[{k}][{(k + 1) % n}]; }}", f"construct {M}, element {k},{(k + 1) % n}", ["construct", "select", "matrix"]))
+        # rows that are themselves constructed from mixed parts
+        out.append(_t(f"export function f(float2 a, float b, {R} c) -> float {{ {M} m = {M}({', '.join([R + '(a, ' + ', '.join(['b'] * (n - 2)) + ')'] + ['c'] * (n - 1))}); return m[0][1] + m[0][{n - 1}] * 2.0 + m[1][0]; }}",
+                      f"construct {M} from mixed rows, elements", ["construct", "select", "matrix"]))
+    return out
+
+
+def modules(tier, seed=0):
+    """several members of the tables in ONE module (renamed f0, f1, ...), each of them once as the entry point: what is compiled for a
+    function must not depend on the functions compiled before it"""
+    import random
+    from ..nslref import ast as A
+    rnd = random.Random(f"f4-modules/{seed}")
+    pool = [it for it in constructors(tier) + operators(tier) + selection(tier) + element_writes(tier) + constructed_access(tier)
+            if len(it.prog.funcs) == 1 and not it.prog.globals and not it.prog.structs]
+    mats = [it for it in pool if "matrix" in it.tags]
+    out = []
+    for gi in range(12 if tier == "quick" else 80):
+        k = rnd.choice((2, 3, 4))
+        group = rnd.sample(mats, min(2, k)) + rnd.sample(pool, max(0, k - 2)) if gi % 2 == 0 else rnd.sample(pool, k)
+        rnd.shuffle(group)
+        funcs = []
+        for i, it in enumerate(group):
+            f = it.prog.funcs[0]
+            funcs.append(A.Func(f"f{i}", f.params, f.ret, f.body, exported=True))
+        for i, it in enumerate(group):
+            if i == 0 and gi % 3:
+                continue                    # the first function of a module is what the single-function members already check
+            prog = A.Program(list(funcs), [], [])
+            m = Item(prog, f"f{i}", set(it.tags) | {"module"}, f"module {gi} [{'; '.join(g.name for g in group)}] entry f{i}", dict(it.bounds), it.small)
+            out.append(m)
+    return out
+
+
 def operators(tier):
     out = []
     for comp in ("float", "int"):
@@ -228,4 +286,5 @@ def copies(tier):
 
 
 def family(tier):
-    return constructors(tier) + operators(tier) + selection(tier) + swizzle_reads(tier) + swizzle_writes(tier) + element_writes(tier) + copies(tier)
+    return (constructors(tier) + constructed_access(tier) + operators(tier) + selection(tier) + swizzle_reads(tier) + swizzle_writes(tier) + element_writes(tier) + copies(tier)
+            + modules(tier))
